@@ -78,6 +78,9 @@ func check(args []string) int {
 	for _, r := range prog.Renames {
 		run.Note("renamed identifier: %s", r.String())
 	}
+	for _, n := range prog.Normalised {
+		run.Note("loop spelling: %s", strings.TrimPrefix(n, prog.Dir+"/"))
+	}
 	ctx := &rules.Ctx{P: prog, R: run, Tier: *tier}
 	// A rule function that panics on an idiom it does not understand must not take the verdict down with it: the
 	// panic becomes an undecided obligation (the check fails, naming the rule function), the other rules still run.
